@@ -9,9 +9,10 @@ CHECKS = {
         category="model_checking",
         text=("TLC exhausts PartitionAlg (a transcription of batch_tasks) against the Partition property for n<=24, "
               "n_batches<=28, start<=3, index and array mode; every (n,b,s,mode) TLC enumerates in the export configuration is "
-              "replayed into the real batch_tasks, and those results plus seeded random calls (n to 1e7) and run_worker calls "
-              "through a recording pool are validated by the PartitionTrace monitor against Partition (validity, not the "
-              "current algorithm)."),
+              "replayed into the real batch_tasks, and those results plus seeded random calls (n to 1e7) and the tasks a recording "
+              "pool receives from the public calls (marginal_ln_likelihood / rejection_sample on the cache paths; natural order, "
+              "n_prior_samples, and randomized order with the index array taken from the recorded shuffle) are validated by the "
+              "PartitionTrace monitor against Partition (validity, not the current algorithm)."),
         design_ref="DESIGN.md section 3 C16",
         note="Trusted: TLC/SANY, JSON transport of ints < 2^31, numpy slicing. Not covered: n or start_idx >= 2^31.",
         technique="TLA+ spec (Partition/PartitionAlg) model-checked with TLC; spec->code replay of TLC-enumerated inputs; code->spec trace validation",
